@@ -62,6 +62,14 @@ ChunkedReadFails(lay, s, e) ==
         \cup RClause("C07", "a read after the end consumed or produced bytes",
                      ended => (e.c = 0 /\ e.p = 0)))
 
+\* Extra (id "X03", not a listed property): is_on_chunk_boundary() after a read is true exactly when the
+\* next unconsumed byte starts a chunk-size line (offset 0, or right after the CRLF that ends a chunk's data)
+BoundaryOffsets(lay) == {0} \cup { lay.pay[i][1] + lay.pay[i][2] + 2 : i \in 1..Len(lay.pay) }
+BoundaryFails(lay, s, e) ==
+  IF e.res # "ok" THEN {} ELSE
+  RClause("X03", "is_on_chunk_boundary() differs from 'the next unconsumed byte starts a chunk-size line'",
+          e.boundary = ((s.pos + e.c) \in BoundaryOffsets(lay)))
+
 ChunkedReadUpd(s, e) ==
   IF e.res = "ok" THEN [s EXCEPT !.pos = @ + e.c, !.delivered = @ + e.p] ELSE s
 
